@@ -889,6 +889,9 @@ def run(rep):
     u3(rep, src)
     u4(rep, src)
     u5(rep, src)
+    from .c15 import h8
+
+    h8(rep, src)
     u0(rep, src)
     rep.extra["injective_table"] = INJECTIVE
     rep.assume("rustc accepts the tree (the syn facts are parsed from the same files the build uses)")
